@@ -114,11 +114,12 @@ CLAIMS['C14'] = dict(
     category='other', design_ref='DESIGN.md section 4 (C14), Appendix A.6',
     technique='bit-vector abstract interpretation of TranslateAddressP with symbolic MPU regions compared with a reference '
               'model by BDD equality (compositional: match predicate for every size with one region, combination logic with '
-              'three regions), AST loop-shape rule, exact tables for the PMSA arm of DataAbort',
+              'three regions), AST loop-shape rule, exact tables for the PMSA arm of DataAbort, event-order rule over the effect '
+              'traces of all 67 load/store classes',
     text='Region match (base, size 2^2..2^32, subregion disable), priority of the highest-numbered enabled matching region, '
          'background-region rule, AP permission table and the abort outcome are proved equal to the reference for every '
          'address, privilege, direction and SCTLR setting; DataAbort never returns and sets DFAR/DFSR per abort type. LR_abt / '
-         'SPSR_abt are C11; no write-back before a faulting access is the C02-O/C03-O ordering rule.',
+         'SPSR_abt are C11; no base write-back precedes a memory access on any path of any single or block load/store (C14-O).',
     note='Trusted: CPython ast; reference coded in sa/props/c14.py; UNPREDICTABLE region programming excluded; more than '
          'three regions by the loop-shape rule.')
 
@@ -209,6 +210,19 @@ CLAIMS['C02'] = dict(
          'exclusive monitor address/size/status protocol, frame and widths. Not decided: bytes moved for given data/endianness '
          '(C13/C17).',
     note='Trusted: CPython ast; the template in sa/props/c02.py (ARM ARM A8 pseudocode); binding through spec/enc_*.json.')
+CLAIMS['C03'] = dict(
+    category='other', design_ref='DESIGN.md section 4 (C03)',
+    technique='structured effect walk of the 18 block-transfer execute() bodies with loop-carried variables; loop-shape rule '
+              '(range(15), bit test, running address stepped by add(address,4,32), register i / user bank); linear forms mod 2^32 of '
+              'start address and write-back value over base, BitCount(registers<14:0>) and registers<15> (fixed by the decode model '
+              'where the encoding fixes it) compared with the addressing-mode table for every assignment of increment / word_higher / '
+              'wback; write-back and UNKNOWN guards; event-order rule; frame, guard, interval widths',
+    text='Decides, for every register list, base value and mode (shape of a bounded loop plus loop-free code): ascending order and '
+         'one word per listed register at consecutive addresses, PC slot after the loop, start and final address for IA/IB/DA/DB, '
+         'PUSH/POP, user-bank, exception-return LDM, SRS and RFE incl. mod-2^32 arithmetic, write-back only when selected and not of a '
+         'just-loaded base, UNKNOWN stores only in the base-in-list-not-lowest case, no write-back before an access, frame and widths. '
+         'PUSH;POP restoring SP is derived from the two table rows. Not decided: memory contents for a concrete list (run-time).',
+    note='Trusted: CPython ast; the table in sa/props/c03.py (ARM ARM A8/B9 pseudocode); binding through spec/enc_*.json.')
 CLAIMS['C04'] = dict(
     category='other', design_ref='DESIGN.md section 4 (C04), Appendix A.7',
     technique='ordering / ownership rules on the PC-advance mechanism, exact tables of the PC read and the four PC-write '
